@@ -25,6 +25,7 @@ variant makes each generator one atomic step, i.e. the sequential theorems apply
 -/
 import LinVerif.Model.IdAssignCfg
 import LinVerif.Lemmas.C09Kv
+import LinVerif.Lemmas.C09KvLookup
 import LinVerif.Lemmas.C09Hist
 
 namespace LinVerif.Props.C09
@@ -48,8 +49,18 @@ def kvStepsOf (calls : List String) : List KvStepName :=
     else if c = "s.createValue" then some .create
     else none)
 
-/-- `getOrCreateValue` = memory lookup, persisted lookup, createValue — the three atomic steps of `kstep` -/
-theorem kv_steps_tie : kvStepsOf C09.kvGetOrCreateCalls = [.lookupMem, .lookupPersisted, .create] := by decide
+/-- `getOrCreateValue` = two lookups, then createValue — the three atomic steps of `kstepO`, in the
+order `currentCfg.kvMemFirst` says (lindb: memory maps first, `kstep`) -/
+theorem kv_steps_tie :
+    kvStepsOf C09.kvGetOrCreateCalls =
+      (if currentCfg.kvMemFirst then [.lookupMem, .lookupPersisted, .create] else [.lookupPersisted, .lookupMem, .create]) := by
+  decide
+
+/-- `GenMetricID` = get-or-create in the namespace dictionary, then in the metric dictionary of that
+namespace, and nothing else that could answer (no cache in front of the dictionaries) -/
+theorem gen_metric_order_tie :
+    C09.metaGenMetricCalls.filter (fun c => !(["GenMetricIDFailures.Incr", "GenMetricIDs.Incr", "uint32", "metric.ID"].contains c)) =
+      ["ns.GetOrCreateValue", "metric.GetOrCreateValue"] := by decide
 
 /-- `GetValueFromMem` looks in two maps (mutable, immutable) under one read lock -/
 theorem kv_lookupMem_tie :
@@ -231,13 +242,31 @@ theorem stable_concurrent {s0 s : KSys} (h0 : KStart s0) (r : KReach .recheckFul
 theorem injective_concurrent {s0 s : KSys} (h0 : KStart s0) (r : KReach .recheckFull s0 s) : KInjective s :=
   kinv_injective (kinv_reach h0 r)
 
+/-- the same for the SMALL repair (`recheckLocked`): createValue looks again, under the write lock, in the
+memory maps and in the bucket of the current snapshot — the tail of Flush needs the same lock, so the
+three are one consistent view and no flush sequence / retry is needed -/
+theorem stable_concurrent_locked {s0 s : KSys} (h0 : KStart s0) (r : KReach .recheckLocked s0 s) : KStable s :=
+  kinv_stable (kinv_reach_locked h0 r)
+
+theorem injective_concurrent_locked {s0 s : KSys} (h0 : KStart s0) (r : KReach .recheckLocked s0 s) : KInjective s :=
+  kinv_injective (kinv_reach_locked h0 r)
+
 /-- non-vacuity: an empty store is a start state; so is any recovered store below its counter -/
 example : KStart { store := {}, ctr := 0 } := by
   refine ⟨rfl, rfl, fun _ _ => rfl, rfl, rfl, ?_, ?_⟩ <;> intros <;> simp_all [Dict.empty]
 
+/-- **lookup ‖ flush** (all variants of createValue, memory maps first): a name that is in the store is
+found by every call that begins later, under every interleaving with other callers, PrepareFlush and
+the two steps of Flush: such a call never reaches createValue -/
+theorem existing_name_found (v : KvVariant) {s0 s1 s : KSys} (h0 : KStart s0) (r1 : KReach v s0 s1) {b n : Nat}
+    (hown : s1.store.Owned b n) (r : KReach v s1 s) :
+    ∀ k t, s1.threads.length ≤ k → s.threads[k]? = some t → t.bucket = b → t.name = n → ∀ q, t.pc ≠ .afterDisk q :=
+  late_callers_find v h0 r1 hown r
+
 /-- what the property says about a variant of `createValue` -/
 def KvVerdict : KvVariant → Prop
   | .recheckFull => ∀ s0 s, KStart s0 → KReach .recheckFull s0 s → KStable s ∧ KInjective s
+  | .recheckLocked => ∀ s0 s, KStart s0 → KReach .recheckLocked s0 s → KStable s ∧ KInjective s
   | v => ∃ s, KReach v { store := {}, ctr := 0 } s ∧ ¬ KStable s
 
 namespace Neg
@@ -260,6 +289,21 @@ moves B's entry out of memory -/
 theorem stable_concurrent_recheckMem : ∃ s, KReach .recheckMem { store := {}, ctr := 0 } s ∧ ¬ KStable s :=
   ⟨_, kexec_reach .recheckMem _ raceFlushSchedule,
     not_stable_of_two_ids (b := 0) (n := 7) (i := 1) (j := 0) (by decide) (by decide)⟩
+
+/-- the two lookups in the other order (persisted bucket first): name 7 exists and is frozen by
+PrepareFlush; a second call reads the old snapshot (miss), the whole flush completes, the call looks
+into the memory maps (empty now) and creates a second id -/
+def lookupFlushSchedule : List KAct :=
+  [.call 0 7, .thread 0, .thread 0, .thread 0, .prepare, .call 0 7, .thread 1, .commit, .finish, .thread 1, .thread 1]
+
+theorem lookup_flush_persistedFirst :
+    (kexecG (kstepPF .noRecheck) { store := {}, ctr := 0 } lookupFlushSchedule).threads = [⟨0, 7, .done 0⟩, ⟨0, 7, .done 1⟩] := by
+  decide
+
+/-- … while lindb's order finds the name on the same schedule -/
+theorem lookup_flush_memFirst :
+    (kexec .noRecheck { store := {}, ctr := 0 } lookupFlushSchedule).threads = [⟨0, 7, .done 0⟩, ⟨0, 7, .done 0⟩] := by
+  decide
 
 /-- the same schedule as run by the driver's `krace` op -/
 theorem kvRace_noRecheck :
@@ -357,8 +401,23 @@ theorem schema_verdict : SchemaVerdict currentCfg.schema := by
   | lookupLocked => exact schema_locked_ignores_snapshot
   | snapshotOutside => exact ⟨by decide, by decide⟩
 
+/-- what lookup ‖ flush says about the order of the two lookups -/
+def LookupVerdict : Bool → Prop
+  | true => ∀ (v : KvVariant) (s0 s1 s : KSys), KStart s0 → KReach v s0 s1 → ∀ b n, s1.store.Owned b n → KReach v s1 s →
+      ∀ k t, s1.threads.length ≤ k → s.threads[k]? = some t → t.bucket = b → t.name = n → ∀ q, t.pc ≠ .afterDisk q
+  | false => ∃ s, KReachG (kstepPF .noRecheck) { store := {}, ctr := 0 } s ∧ ¬ KStable s
+
+/-- **lookup_verdict**: decided for the order of the two lookups /repo has now -/
+theorem lookup_verdict : LookupVerdict currentCfg.kvMemFirst := by
+  cases h : currentCfg.kvMemFirst with
+  | true => exact fun v s0 s1 s h0 r1 b n hown r => late_callers_find v h0 r1 hown r
+  | false =>
+    exact ⟨_, kexecG_reach _ _ Neg.lookupFlushSchedule,
+      not_stable_of_two_ids (b := 0) (n := 7) (i := 0) (j := 1) Neg.lookup_flush_persistedFirst (by decide)⟩
+
 theorem kv_verdict_all : ∀ v, KvVerdict v
   | .recheckFull => fun _ _ h0 r => ⟨stable_concurrent h0 r, injective_concurrent h0 r⟩
+  | .recheckLocked => fun _ _ h0 r => ⟨stable_concurrent_locked h0 r, injective_concurrent_locked h0 r⟩
   | .recheckMem => Neg.stable_concurrent_recheckMem
   | .noRecheck => Neg.stable_concurrent_noRecheck
 
